@@ -15,7 +15,8 @@ numpy implementations of the vendors' documented gate definitions, qubit order a
         * results: QPUResult / SimulatorResult from ALL histograms over <=3 qubits with counts in {0,1,2} /
           weights k/4 x every measurement-key layout (ordered disjoint subsets), Job.results() on API dictionaries
           (little-endian keys, metadata unpacking, batches), SimulatorResult.to_cirq_result under a scripted PRNG
-          (exact sampling distribution),
+          (exact sampling distribution); every table / API histogram is also listed in descending and rotated
+          insertion order (ascending little-endian order is already non-ascending big-endian order),
         * closed loop: cirq_ionq.Service / Sampler against an in-process ideal IonQ API (requests-level fake that
           runs the reference interpreter and answers little-endian histograms): exact distribution of the returned
           cirq.Result vs the Born distribution of the circuit.
@@ -56,12 +57,12 @@ PROPERTY = "C17"
 LEVEL = "exploration"
 RULE = ("IonQ: every placed letter (X/Y/Z powers at 14 special exponents, each +-1e-9 and +-1e-6, a generic one, "
         "global_shift 0/-0.5; H/CNOT/SWAP powers; XX/YY/ZZ powers; PauliStringPhasorGate over ALL Pauli strings of "
-        "length<=3 x coefficient +-1 x 9 exponent pairs; GPI/GPI2/MS/ZZ grids; 22 kinds of unsupported content) x every "
+        "length<=3 x coefficient +-1 x 9 exponent pairs (quick: 4 of the 9 for length 3); GPI/GPI2/MS/ZZ grids; 22 kinds of unsupported content) x every "
         "placement (dense, reversed, sparse up to qubit 5) alone, then all sequences of <=2 (quick) / <=3 (thorough) "
         "letters of a representative placed alphabet x measurement layouts, native sequences, all mixed pairs; 39 "
         "measurement layouts x 4 gate prefixes x 2 moment structures; all ordered pairs/triples of a circuit pool as batches; results: ALL histograms over <=3 "
         "qubits with counts in {0,1,2} (weights k/4 for the simulator) x every layout of ordered disjoint target "
-        "subsets; closed loop Service/Sampler runs against an in-process reference IonQ API. AQT: all sequences of "
+        "subsets x table/API-histogram insertion order (ascending, descending, rotated); closed loop Service/Sampler runs against an in-process reference IonQ API. AQT: all sequences of "
         "<=2/<=3 letters over Z/PhasedX/XX grids (+ rejected X/Y/CZ, measurement positions) x resolver. Pasqal: sequences "
         "over the device gate set x resolver. non-trivial = payload accepted and containing >=1 gate or measurement "
         "(serializers), histogram with >=2 outcomes or >=2 shots (results), distribution with >=2 outcomes (loops); "
@@ -441,9 +442,13 @@ def ionq_check_many(circuits, gate_ops_list, meas_list, must):
 # --- stage: every letter alone -------------------------------------------------------------------------------------
 
 
-def letter_cases():
+def letter_cases(tier="thorough"):
     out = []
+    base = len(_G["qis"])
+    nph = len(_G["phasor"])
     for li, lt in enumerate(_G["letters"]):
+        if tier == "quick" and base <= li < base + nph and lt.arity == 3 and (li - base) % 9 not in (0, 1, 2, 7):
+            continue  # quick: length-3 Pauli strings with 4 of the 9 exponent pairs (positive / negative / zero time, wrap-around)
         for pi in range(len(PLACEMENTS[lt.arity])):
             out.append((li, pi))
     return out
@@ -832,6 +837,26 @@ def result_layouts(n):
 _RL = {n: result_layouts(n) for n in (1, 2, 3)}
 
 
+ORDERS = ("ascending", "descending", "rotated")
+
+
+def _reorder(items, mode):
+    """items sorted ascending by key -> the same items in insertion order `mode` (dicts keep insertion order;
+    nothing documents that the API / the caller lists outcomes in ascending order)."""
+    items = list(items)
+    if mode == 1:
+        return items[::-1]
+    if mode == 2:
+        return items[1:] + items[:1]
+    return items
+
+
+def _api_dict(pairs, mode):
+    """pairs: (little-endian integer key, value) -> API histogram listed in the given order of the LITTLE-endian keys
+    (ascending little-endian order is already a non-ascending big-endian order for >= 2 qubits)."""
+    return {str(k): v for k, v in _reorder(sorted(pairs), mode)}
+
+
 def _bits_be(v, n):
     """Independent re-derivation: format the big-endian integer as an n-character binary string, qubit j = s[j]."""
     s = format(v, "b").zfill(n)
@@ -928,31 +953,36 @@ def run_qpu_hist(case):
     shots_bits = []
     for v, c in enumerate(hist):
         shots_bits += [_bits_be(v, n)] * c
-    counts_be = {v: c for v, c in enumerate(hist) if c or zero_entries}
+    counts_items = [(v, c) for v, c in enumerate(hist) if c or zero_entries]
     # the API's answer for the same experiment: little-endian keys, relative frequencies (strings or floats)
-    api = {}
+    api_pairs = []
     for v, c in enumerate(hist):
         if c:
             k = RI.bits_to_le_key(_bits_be(v, n))
-            api[str(k)] = (str(c / total) if (v % 2) else c / total)
+            api_pairs.append((k, (str(c / total) if (v % 2) else c / total)))
     nl = 0
-    for layout in _RL[n]:
-        md_dict = {f"k{j}": list(t) for j, t in enumerate(layout)}
-        res = cirq_ionq.QPUResult(dict(counts_be), n, md_dict)
-        err = _check_qpu_views(res, n, shots_bits, layout, f"QPUResult(counts={counts_be}, n={n}, layout={layout})")
-        if err:
-            return bad(err, kind="qpu_result")
-        md = RI.encode_measurement_metadata([(f"k{j}", t) for j, t in enumerate(layout)])
-        job = cirq_ionq.Job(_FakeResultsClient(dict(api)), _job_dict("qpu.aria-1", n, md, total))
-        jr = job.results()
-        if not isinstance(jr, cirq_ionq.QPUResult):
-            return bad(f"Job.results() on a qpu backend returned {type(jr)}", kind="job_results")
-        if dict(jr.measurement_dict()) != md_dict:
-            return bad(f"Job.results().measurement_dict() = {jr.measurement_dict()!r} != {md_dict!r}", kind="job_results")
-        err = _check_qpu_views(jr, n, shots_bits, layout, f"Job.results() for API histogram {api} (little-endian), n={n}, layout={layout}")
-        if err:
-            return bad(err, kind="job_results")
-        nl += 1
+    for mode in range(3):
+        counts_be = dict(_reorder(counts_items, mode))
+        api = _api_dict(api_pairs, mode)
+        # every layout for the ascending tables; a fixed stride of the layouts for the other insertion orders
+        layouts = _RL[n] if mode == 0 else _RL[n][mode::5]
+        for layout in layouts:
+            md_dict = {f"k{j}": list(t) for j, t in enumerate(layout)}
+            res = cirq_ionq.QPUResult(dict(counts_be), n, md_dict)
+            err = _check_qpu_views(res, n, shots_bits, layout, f"QPUResult(counts={counts_be} [{ORDERS[mode]}], n={n}, layout={layout})")
+            if err:
+                return bad(err, kind="qpu_result")
+            md = RI.encode_measurement_metadata([(f"k{j}", t) for j, t in enumerate(layout)])
+            job = cirq_ionq.Job(_FakeResultsClient(dict(api)), _job_dict("qpu.aria-1", n, md, total))
+            jr = job.results()
+            if not isinstance(jr, cirq_ionq.QPUResult):
+                return bad(f"Job.results() on a qpu backend returned {type(jr)}", kind="job_results")
+            if dict(jr.measurement_dict()) != md_dict:
+                return bad(f"Job.results().measurement_dict() = {jr.measurement_dict()!r} != {md_dict!r}", kind="job_results")
+            err = _check_qpu_views(jr, n, shots_bits, layout, f"Job.results() for API histogram {api} (little-endian, listed {ORDERS[mode]}), n={n}, layout={layout}")
+            if err:
+                return bad(err, kind="job_results")
+            nl += 1
     return good(nontrivial=(total >= 2 or sum(1 for c in hist if c) >= 2), layouts=nl)
 
 
@@ -1008,56 +1038,64 @@ def run_sim_hist(case):
     n, quarters = case
     probs = {v: k / 4 for v, k in enumerate(quarters) if k}
     paths = 0
-    for layout in _RL[n]:
-        md_dict = {f"k{j}": list(t) for j, t in enumerate(layout)}
-        keys = list(md_dict)
-        api = {str(RI.bits_to_le_key(_bits_be(v, n))): (p if v % 2 else str(p)) for v, p in probs.items()}
-        md = RI.encode_measurement_metadata([(k, t) for k, t in md_dict.items()])
-        direct = cirq_ionq.SimulatorResult(dict(probs), n, md_dict, repetitions=2)
-        job = cirq_ionq.Job(_FakeResultsClient(api), _job_dict("simulator", n, md, 2))
-        via_job = job.results()
-        if not isinstance(via_job, cirq_ionq.SimulatorResult):
-            return bad(f"Job.results() on the simulator backend returned {type(via_job)}", kind="job_results")
-        for tag, res in (("SimulatorResult", direct), (f"Job.results() for API probabilities {api} (little-endian)", via_job)):
-            tag = f"{tag} probs={probs} n={n} layout={layout}"
-            if res.num_qubits() != n or res.repetitions() != 2 or dict(res.measurement_dict()) != md_dict:
-                return bad(f"{tag}: num_qubits/repetitions/measurement_dict wrong: {res.num_qubits()} {res.repetitions()} {res.measurement_dict()}", kind="sim_result")
-            if {k: v for k, v in res.probabilities().items() if v} != probs:
-                return bad(f"{tag}: probabilities() = {res.probabilities()}", kind="sim_result")
-            joint = collections.defaultdict(float)
-            for v, p in probs.items():
-                b = _bits_be(v, n)
-                joint[tuple(tuple(b[t] for t in tg) for tg in layout)] += p
-            for key, tg in md_dict.items():
-                exp = collections.defaultdict(float)
+    nl = 0
+    for mode in range(3):
+        if mode and len(probs) < 2:
+            continue
+        table = dict(_reorder(sorted(probs.items()), mode))  # same table, other insertion order
+        layouts = _RL[n] if mode == 0 else _RL[n][mode::3]
+        for layout in layouts:
+            nl += 1
+            md_dict = {f"k{j}": list(t) for j, t in enumerate(layout)}
+            keys = list(md_dict)
+            api = _api_dict([(RI.bits_to_le_key(_bits_be(v, n)), (p if v % 2 else str(p))) for v, p in probs.items()], mode)
+            md = RI.encode_measurement_metadata([(k, t) for k, t in md_dict.items()])
+            direct = cirq_ionq.SimulatorResult(dict(table), n, md_dict, repetitions=2)
+            job = cirq_ionq.Job(_FakeResultsClient(api), _job_dict("simulator", n, md, 2))
+            via_job = job.results()
+            if not isinstance(via_job, cirq_ionq.SimulatorResult):
+                return bad(f"Job.results() on the simulator backend returned {type(via_job)}", kind="job_results")
+            for tag, res in ((f"SimulatorResult(table listed {ORDERS[mode]}: {table})", direct),
+                             (f"Job.results() for API probabilities {api} (little-endian, listed {ORDERS[mode]})", via_job)):
+                tag = f"{tag} probs={probs} n={n} layout={layout}"
+                if res.num_qubits() != n or res.repetitions() != 2 or dict(res.measurement_dict()) != md_dict:
+                    return bad(f"{tag}: num_qubits/repetitions/measurement_dict wrong: {res.num_qubits()} {res.repetitions()} {res.measurement_dict()}", kind="sim_result")
+                if {k: v for k, v in res.probabilities().items() if v} != probs:
+                    return bad(f"{tag}: probabilities() = {res.probabilities()}", kind="sim_result")
+                joint = collections.defaultdict(float)
                 for v, p in probs.items():
-                    exp[_key_value(_bits_be(v, n), tg)] += p
-                got = res.probabilities(key)
-                if set(got) != set(exp) or any(abs(got[k] - exp[k]) > 1e-12 for k in exp):
-                    return bad(f"{tag}: probabilities({key}) = {got} for targets {tg}, expected {dict(exp)}", kind="sim_result")
-            try:
-                res.probabilities("nokey")
-                return bad(f"{tag}: unknown key accepted", kind="sim_result")
-            except ValueError:
-                pass
-            if not layout:
+                    b = _bits_be(v, n)
+                    joint[tuple(tuple(b[t] for t in tg) for tg in layout)] += p
+                for key, tg in md_dict.items():
+                    exp = collections.defaultdict(float)
+                    for v, p in probs.items():
+                        exp[_key_value(_bits_be(v, n), tg)] += p
+                    got = res.probabilities(key)
+                    if set(got) != set(exp) or any(abs(got[k] - exp[k]) > 1e-12 for k in exp):
+                        return bad(f"{tag}: probabilities({key}) = {got} for targets {tg}, expected {dict(exp)}", kind="sim_result")
                 try:
-                    res.to_cirq_result(seed=1)
-                    return bad(f"{tag}: to_cirq_result without keys must raise ValueError", kind="sim_result")
+                    res.probabilities("nokey")
+                    return bad(f"{tag}: unknown key accepted", kind="sim_result")
                 except ValueError:
-                    continue
-            for reps, override in ((2, False), (1, True)):
-                dist, npaths = _sim_distribution(res, layout, reps, override)
-                paths += npaths
-                exp = collections.defaultdict(float)
-                for combo in itertools.product(joint.items(), repeat=reps):
-                    w = 1.0
-                    for _, p in combo:
-                        w *= p
-                    exp[tuple(r for r, _ in combo)] += w
-                if set(dist) != set(exp) or any(abs(dist[k] - exp[k]) > 1e-12 for k in exp):
-                    return bad(f"{tag}: exact sampling distribution of to_cirq_result (repetitions={reps}) = {dist}, expected {dict(exp)}", kind="sim_sampling")
-    return good(nontrivial=len(probs) >= 2, paths=paths, layouts=len(_RL[n]))
+                    pass
+                if not layout:
+                    try:
+                        res.to_cirq_result(seed=1)
+                        return bad(f"{tag}: to_cirq_result without keys must raise ValueError", kind="sim_result")
+                    except ValueError:
+                        continue
+                for reps, override in ((2, False), (1, True)):
+                    dist, npaths = _sim_distribution(res, layout, reps, override)
+                    paths += npaths
+                    exp = collections.defaultdict(float)
+                    for combo in itertools.product(joint.items(), repeat=reps):
+                        w = 1.0
+                        for _, p in combo:
+                            w *= p
+                        exp[tuple(r for r, _ in combo)] += w
+                    if set(dist) != set(exp) or any(abs(dist[k] - exp[k]) > 1e-12 for k in exp):
+                        return bad(f"{tag}: exact sampling distribution of to_cirq_result (repetitions={reps}) = {dist}, expected {dict(exp)}", kind="sim_sampling")
+    return good(nontrivial=len(probs) >= 2, paths=paths, layouts=nl)
 
 
 def sim_cases(tier):
@@ -1078,7 +1116,8 @@ def job_batch_cases():
     for backend in ("qpu", "sim"):
         for r in (2, 3):
             for combo in itertools.product(range(len(items)), repeat=r):
-                out.append((backend, combo))
+                for mode in range(3):
+                    out.append((backend, combo, mode))
     return out, items
 
 
@@ -1086,7 +1125,7 @@ _JB_ITEMS = job_batch_cases()[1]
 
 
 def run_job_batch(case):
-    backend, combo = case
+    backend, combo, mode = case
     subs = [_JB_ITEMS[i] for i in combo]
     shots = 4
     api = {}
@@ -1094,10 +1133,8 @@ def run_job_batch(case):
     qn = []
     for j, (n, hist, layout) in enumerate(subs):
         tot = sum(hist)
-        h = {}
-        for v, c in enumerate(hist):
-            if c:
-                h[str(RI.bits_to_le_key(_bits_be(v, n)))] = c / tot
+        # sub-histogram j lists its little-endian keys in insertion order (mode + j) % 3
+        h = _api_dict([(RI.bits_to_le_key(_bits_be(v, n)), c / tot) for v, c in enumerate(hist) if c], (mode + j) % 3)
         api[f"child-{j:04d}"] = h
         mlist.append(RI.encode_measurement_metadata([(f"k{i}", t) for i, t in enumerate(layout)]))
         qn.append(n)
@@ -1130,6 +1167,15 @@ def run_job_batch(case):
                     return bad(f"{tag}: probabilities({key}) = {got}, expected {dict(exp)}", kind="job_batch")
             if res.repetitions() != shots:
                 return bad(f"{tag}: repetitions {res.repetitions()}", kind="job_batch")
+            if layout:
+                dist, _ = _sim_distribution(res, layout, 1, True)
+                exp = collections.defaultdict(float)
+                for v, c in enumerate(hist):
+                    if c:
+                        b = _bits_be(v, n)
+                        exp[(tuple(tuple(b[t] for t in tg) for tg in layout),)] += c / tot
+                if set(dist) != set(exp) or any(abs(dist[k] - exp[k]) > 1e-12 for k in exp):
+                    return bad(f"{tag}: exact sampling distribution of to_cirq_result = {dist}, expected {dict(exp)}", kind="job_batch")
     return good(nontrivial=True)
 
 
@@ -1179,9 +1225,16 @@ class FakeIonQApi:
     codes = _real_requests.codes
     RequestException = _real_requests.RequestException
 
-    def __init__(self):
+    def __init__(self, order_base=0):
         self.jobs = {}
         self.bodies = []
+        # circuit i of job number j lists its histogram in insertion order (order_base + j + i) % 3 of the
+        # little-endian keys: ascending, descending, rotated (nothing documents a particular order)
+        self.order_base = order_base
+
+    def _listed(self, hist, jid, i):
+        mode = (self.order_base + int(jid.split("-")[1]) + i) % 3
+        return _api_dict([(int(k), v) for k, v in hist.items()], mode)
 
     def post(self, url, json=None, headers=None, **kw):
         if not url.endswith("/v0.4/jobs"):
@@ -1213,9 +1266,9 @@ class FakeIonQApi:
             return _Resp({"id": parts[0], "status": "completed", "backend": b["backend"], "name": b.get("name", ""),
                           "metadata": b["metadata"], "stats": {"qubits": j["n"]}})
         if parts[1:] == ["results", "probabilities"] and not j["multi"]:
-            return _Resp(dict(j["hists"][0]))
+            return _Resp(self._listed(j["hists"][0], parts[0], 0))
         if parts[1:] == ["results", "probabilities", "aggregated"] and j["multi"]:
-            return _Resp({f"{parts[0]}-child-{i:03d}": dict(h) for i, h in enumerate(j["hists"])})
+            return _Resp({f"{parts[0]}-child-{i:03d}": self._listed(h, parts[0], i) for i, h in enumerate(j["hists"])})
         raise core.HarnessError(f"unexpected GET {url}")
 
 
@@ -1305,7 +1358,7 @@ def run_loop(case):
     n = _n_qubits(circuit)
     keys = [k for k, _, _ in lay.meas]
     exp = _born_records(ops, n, lay.meas)
-    api = FakeIonQApi()
+    api = FakeIonQApi(order_base=li + len(seq))
     with _Patched(_ionq_client_mod, "requests", api):
         service = cirq_ionq.Service(remote_host="http://example.com", api_key="key")
         if target == "sim":
@@ -1355,7 +1408,7 @@ def run_loop_sampler(case):
     sweep = [{"a": 0.5, "b": 0.25}, {"a": 1.0, "b": 0.5}, {"a": 0.3, "b": 1.3}]
     n = _n_qubits(circuit)
     reps = 2 ** n
-    api = FakeIonQApi()
+    api = FakeIonQApi(order_base=i)
     with _Patched(_ionq_client_mod, "requests", api):
         service = cirq_ionq.Service(remote_host="http://example.com", api_key="key")
         prng = ScriptedRandomState(None)
@@ -1825,7 +1878,7 @@ def stages(tier, seed):
     reset = lambda: _init(seed)
     jb_cases, _ = job_batch_cases()
     return [
-        CaseStage("ionq_letters", letter_cases(), run_letter, reset=reset, describe=describe_letter),
+        CaseStage("ionq_letters", letter_cases(tier), run_letter, reset=reset, describe=describe_letter),
         CaseStage("ionq_measurement_layouts", layout_cases(), run_layout, reset=reset,
                   describe=lambda c: {"layout": _G["layouts"][c[0]].name, "prefix": c[1]}),
         CaseStage("ionq_misc_contracts", misc_cases(), run_misc, reset=reset),
